@@ -3,6 +3,8 @@ package participle
 import (
 	"fmt"
 	"strings"
+
+	"github.com/alecthomas/participle/v2/lexer"
 )
 
 // Perform some post-construction validation. This currently does:
@@ -123,8 +125,14 @@ func canMatchEmpty(n node, visiting map[*strct]bool) bool {
 		return true
 	case *capture:
 		return canMatchEmpty(n.node, visiting)
+	case *reference:
+		// EOF matches at the end of the input without consuming anything.
+		return n.typ == lexer.EOF
+	case *literal:
+		// An untyped empty literal matches the EOF token, whose text is empty.
+		return n.s == "" && n.t == lexer.EOF
 	}
-	// Literals, references, negations and user-implemented productions consume input.
+	// Other literals, references, negations and user-implemented productions consume input.
 	return false
 }
 
